@@ -56,6 +56,12 @@ func runWorld(r *kit.Run, setup chainworld.Setup, rogue int, f func(w *chainworl
 			w.Vals[rogue].Key = rogueKey
 		}
 		w.Genesis = chainkit.MakeGenesis(w.Vals, params.YouV5)
+		// validator 1 (an online Senator) is operated by client 1, so that the run can have it
+		// deposit: the validator set then changes at a staking-period end inside the chain
+		if gv, ok := w.Genesis.Validators[w.Vals[1].Key.Addr]; ok && rogue != 1 {
+			gv.OperatorAddress = chainworld.ClientAddr(1)
+			w.Genesis.Validators[w.Vals[1].Key.Addr] = gv
+		}
 		var vkeys []*chainkit.ValKey
 		for i, v := range w.Vals {
 			if i != rogue {
